@@ -35,6 +35,30 @@ def auth_lines(rng):
             pol, a = s.build()
             form = "record" if name in authcat.RECORD_ONLY else "dict"
             out.append((f"auth {name} uv_required={ruv}", impl.verify_auth(pol, a.as_record() if form == "record" else a.as_dict())))
+    # the same assertion again after it was accepted, with one bit of the signed material changed (nothing re-signed): whatever was remembered about the first
+    # verification, this is another message
+    for kind in ("ES256-P256", "RS256", "EdDSA"):
+        s = authcat.Scn(kind)
+        pol, a = s.build()
+        out.append((f"auth accepted, then tampered: first {kind}", impl.verify_auth(pol, a.as_record())))
+        ad0, cdj0 = a.ad, a.cdj
+        a.ad = ad0[:36] + bytes([ad0[36] ^ 1])
+        out.append((f"auth accepted, then tampered: counter bit {kind}", impl.verify_auth(pol, a.as_record())))
+        a.ad = ad0[:32] + bytes([ad0[32] ^ 0x08]) + ad0[33:]
+        out.append((f"auth accepted, then tampered: BE flag {kind}", impl.verify_auth(pol, a.as_record())))
+        a.ad, a.cdj = ad0, cdj0.replace(b"}", b" }")
+        out.append((f"auth accepted, then tampered: client data white space {kind}", impl.verify_auth(pol, a.as_record())))
+        a.cdj = cdj0
+        out.append((f"auth accepted, then tampered: original again {kind}", impl.verify_auth(pol, a.as_record())))
+    # the stored key in the other form the library documents (a raw uncompressed P-256 point, as U2F registrations left it)
+    s = authcat.Scn("ES256-P256")
+    pol, a = s.build()
+    n = a.cred.pk.public_numbers()
+    raw = b"\x04" + n.x.to_bytes(32, "big") + n.y.to_bytes(32, "big")
+    praw = impl.AuthPolicy(pol.challenge, pol.rp_id, pol.origin, raw, pol.count, False)
+    out.append(("auth stored key as raw point: genuine", impl.verify_auth(praw, a.as_record())))
+    a.sig = a.sig[:-1] + bytes([a.sig[-1] ^ 1])
+    out.append(("auth stored key as raw point: bad signature", impl.verify_auth(praw, a.as_record())))
     for (st, c) in ((0, 0), (5, 5), (5, 4), (4, 5), (2 ** 31, 1), (2 ** 32 - 1, 0)):
         s = authcat.Scn("ES256-P256")
         s.count, s.stored = c, st
@@ -74,6 +98,25 @@ def reg_lines(rng):
             except Exception:
                 continue
             out.append((f"reg {name}/{fmt}", impl.verify_reg(regrun.policy_of(pd), reg.as_dict())[:60]))
+    # statements made with legacy algorithms (RS1 / SHA-1 name algorithm) and faults in them: where the host cannot compute a digest, the binding it protects is NOT thereby satisfied
+    for fmt, ak in (("tpm", "RS1"), ("packed", "RS1"), ("tpm", "RS256")):
+        for name in (None, "nonce-other-authdata", "signed-other-authdata", "extradata-truncated", "extradata-empty", "signed-by-other-key"):
+            s = regsim.RScn(fmt, "ES256-P256", ak)
+            if fmt == "tpm" and ak == "RS1":
+                s.k["tpm_name_alg"] = "SHA256"
+            if name is not None:
+                f = regcat.FORMAT_FAULTS.get(fmt, {}).get(name)
+                if f is None:
+                    continue
+                try:
+                    f(s, rng)
+                except Exception:
+                    continue
+            try:
+                pd, reg = regsim.build(s)
+            except Exception:
+                continue
+            out.append((f"reg legacy-algorithm statement {fmt}/{ak} {name or 'genuine'}", impl.verify_reg(regrun.policy_of(dict(pd, algs=[-7, -257, -65535])), reg.as_dict())[:60]))
     for fmt in regsim.X5C_FORMATS:
         for mode in ("none", "unrelated", "other-fmt"):
             if fmt in ("packed", "tpm", "fido-u2f") and mode in ("none", "other-fmt"):
@@ -180,8 +223,68 @@ def options_lines(rng):
 GROUPS = {"auth": auth_lines, "reg": reg_lines, "codec": codec_lines, "options": options_lines}
 
 
+def masquerade(kinds):
+    """Make the interpreter LOOK like another platform / implementation / capability set to code that asks (after the third-party packages are imported, before
+    the library is): the library's outcomes are functions of its arguments and the clock - not of where it runs."""
+    import types, platform, enum, hashlib
+    import cryptography, OpenSSL, cbor2, asn1crypto, json, base64, datetime, secrets, logging, warnings, urllib.parse, unicodedata, fnmatch, functools, weakref, collections      # noqa: bound before the masks go on
+    from cryptography.hazmat.primitives.asymmetric import ec, rsa, ed25519, padding
+    from cryptography.hazmat.primitives import hashes, serialization
+    from cryptography import x509
+    for k in kinds:
+        if k == "pypy":
+            sys.pypy_version_info = (7, 3, 15, "final", 0)
+            platform.python_implementation = lambda: "PyPy"
+            impl_ = types.SimpleNamespace(**{a: getattr(sys.implementation, a) for a in dir(sys.implementation) if not a.startswith("__")})
+            impl_.name = "pypy"
+            sys.implementation = impl_
+        elif k in ("win32", "darwin", "freebsd13", "emscripten"):
+            sys.platform = k
+            platform.system = lambda k=k: {"win32": "Windows", "darwin": "Darwin"}.get(k, k)
+        elif k == "old-enum":
+            # Python 3.8 - 3.11: `value in EnumClass` raises TypeError for a value that is no member instance (3.12 returns False / looks the value up)
+            meta = type(enum.Enum)
+            def contains(cls, member):
+                if not isinstance(member, enum.Enum):
+                    raise TypeError("unsupported operand type(s) for 'in': '%s' and '%s'" % (type(member).__qualname__, cls.__class__.__qualname__))
+                return isinstance(member, cls) and member._name_ in cls._member_map_
+            meta.__contains__ = contains
+        elif k == "py39":
+            sys.version_info = type("version_info", (tuple,), {"major": 3, "minor": 9, "micro": 18, "releaselevel": "final", "serial": 0})((3, 9, 18, "final", 0))
+            sys.version = "3.9.18 (main) [GCC]"
+            sys.hexversion = 0x030912F0
+        elif k == "fips":
+            # a host whose policy disables legacy digests and algorithms: asking for them fails.  (Outcomes MAY turn into errors here - what must not happen is an
+            # acceptance the default environment refuses; the comparison for this environment is one-directional.)
+            def blocked(*a, **kw):
+                raise ValueError("[digital envelope routines] unsupported: disabled for FIPS")
+            proxy = types.ModuleType("hashlib")
+            proxy.__dict__.update({k_: v_ for k_, v_ in vars(hashlib).items() if not k_.startswith("__")})
+            proxy.sha1 = proxy.md5 = blocked
+            proxy.new = lambda name, *a, **kw: blocked() if str(name).lower().replace("-", "") in ("sha1", "md5") else hashlib.new(name, *a, **kw)
+            # only the LIBRARY sees the restricted module (the simulator in this process still has to build RS1 statements)
+            import pkgutil, importlib, webauthn
+            for mi in pkgutil.walk_packages(webauthn.__path__, "webauthn."):
+                try:
+                    importlib.import_module(mi.name)
+                except Exception:
+                    pass
+            for mn, mod in list(sys.modules.items()):
+                if mn.startswith("webauthn") and mod is not None and getattr(mod, "hashlib", None) is hashlib:
+                    mod.hashlib = proxy
+        elif k == "backend-fips":
+            from cryptography.hazmat.backends.openssl.backend import backend
+            backend._fips_enabled = True
+        elif k == "small-recursion":
+            sys.setrecursionlimit(220)
+        elif k == "maxsize32":
+            sys.maxsize = 2 ** 31 - 1
+
+
 def main():
     group = sys.argv[1]
+    if os.environ.get("VERIF_MASQUERADE"):
+        masquerade(os.environ["VERIF_MASQUERADE"].split(","))
     if os.environ.get("VERIF_LOGGING"):
         import logging
         logging.basicConfig(level=logging.DEBUG if os.environ["VERIF_LOGGING"] == "root" else logging.WARNING, stream=open(os.devnull, "w"))
